@@ -431,7 +431,13 @@ func (s *controlledSelector) HandleSuccessResponse(
 
 	pair.state = CandidatePairStateSucceeded
 	s.log.Tracef("Found valid candidate pair: %s", pair)
-	if pair.nominateOnBindingSuccess {
+	// A deferred renomination that has been superseded by a nomination with a
+	// greater value in the meantime must not take the selection back.
+	superseded := pair.renominateOnBindingSuccess && s.lastNomination != nil &&
+		*s.lastNomination != pair.deferredNominationValue
+	if pair.nominateOnBindingSuccess && superseded {
+		s.log.Tracef("Ignore deferred nomination of pair %s, superseded by a later nomination", pair)
+	} else if pair.nominateOnBindingSuccess {
 		if selectedPair := s.agent.getSelectedPair(); selectedPair == nil ||
 			(selectedPair != pair &&
 				(pair.renominateOnBindingSuccess ||
@@ -501,6 +507,9 @@ func (s *controlledSelector) HandleBindingRequest(message *stun.Message, local, 
 			// Failed.
 			pair.nominateOnBindingSuccess = true
 			pair.renominateOnBindingSuccess = nominationValue != nil
+			if nominationValue != nil {
+				pair.deferredNominationValue = *nominationValue
+			}
 		}
 	}
 
